@@ -117,6 +117,7 @@ fn scenario(depth: usize, batch: BatchMode, pauses: Vec<u64>, p: u64, bound: usi
         max_execs: 0,
         shards: 1,
         nontrivial: adaptive,
+        unbounded: false,
     }
 }
 
